@@ -226,11 +226,11 @@ func diffClass(d string) string {
 
 func init() {
 	register(&PropDef{ID: "C18", Plan: func(tier string) Plan {
-		n := 400
+		n := c18enum + 300
 		if tier == "thorough" {
-			n = 12000
+			n = c18enum + 12000
 		}
-		return Plan{Runs: n, Level: "exploration", Rule: "one run = a tape-drawn sequence of 8-60 store operations (start, insert, ext-meta, signer, locations, lookup hit/miss, whole-store replacement with a store built by a sub-sequence, close+reopen and dirty restart for disk, optional write faults) applied in lock-step to a MapStore, a LevelDbStore (through crlstore.CreateStoreFactory, simulated disk underneath) and a reference model; after every step all getters and a fixed set of lookups are compared map = disk = model; non-trivial = the sequence contains a replacement, a reopen, a dirty restart or an injected fault; distinct = distinct operation sequences"}
+		return Plan{Runs: n, Enumerated: c18enum, Exhaustive: true, Level: "exploration", Rule: "runs 0..583 enumerate every operation sequence of length 1..3 over the 8 operation kinds (values drawn from the tape), each followed by two inserts and a reopen; further runs: a tape-drawn sequence of 8-60 store operations (start, insert, ext-meta, signer, locations, lookup hit/miss, whole-store replacement with a store built by a sub-sequence, close+reopen and dirty restart for disk, optional write faults) applied in lock-step to a MapStore, a LevelDbStore (through crlstore.CreateStoreFactory, simulated disk underneath) and a reference model; after every step all getters and a fixed set of lookups are compared map = disk = model; non-trivial = the sequence contains a replacement, a reopen, a dirty restart or an injected fault; distinct = distinct operation sequences"}
 	}, Run: runC18})
 	register(&PropDef{ID: "C09", Plan: func(tier string) Plan {
 		n := 96
@@ -241,12 +241,36 @@ func init() {
 	}, Run: runC09})
 }
 
+// c18enum: all operation sequences of length 1..3 over the 8 operation kinds (8 + 64 + 512)
+const c18enum = 8 + 64 + 512
+
+func c18decode(idx int) []int {
+	switch {
+	case idx < 8:
+		return []int{idx}
+	case idx < 8+64:
+		i := idx - 8
+		return []int{i / 8, i % 8}
+	}
+	i := idx - 72
+	return []int{i / 64, (i / 8) % 8, i % 8}
+}
+
 func runC18(h *Harness) {
 	tp := h.Tape
 	n := h.NewNode("s1", NodeCfg{})
 	faulty := tp.Chance(1, 4)
 	h.Disk.SmallWB = tp.Chance(1, 3)
 	nops := 8 + tp.Int(52)
+	var fixed []int
+	if h.Idx < c18enum {
+		fixed = c18decode(h.Idx)
+		// after the enumerated prefix: two inserts and a reopen, so that every prefix is followed by lookups of real entries
+		fixed = append(fixed, 1, 1, 6)
+		nops, faulty = len(fixed), false
+		h.Disk.SmallWB = h.Idx%2 == 1
+		h.R.Scenario["enumerated"] = fmt.Sprint(fixed[:len(fixed)-3])
+	}
 	h.R.Scenario["ops"], h.R.Scenario["faulty"], h.R.Scenario["smallwb"] = nops, faulty, h.Disk.SmallWB
 	if faulty {
 		h.R.Config = "faulty"
@@ -320,7 +344,11 @@ func runC18(h *Harness) {
 				}
 				h.R.NonTrivial = true
 			}
-			switch tp.Weighted(2, 8, 2, 2, 2, 2, 2, 1) {
+			opKind := tp.Weighted(2, 8, 2, 2, 2, 2, 2, 1)
+			if fixed != nil {
+				opKind = fixed[i]
+			}
+			switch opKind {
 			case 0:
 				mi := &crlreader.CRLMetaInfo{Issuer: *storeIssuers[tp.Int(len(storeIssuers))], ThisUpdate: epoch.Add(time.Duration(tp.Int(100)) * time.Hour).UTC()}
 				if tp.Chance(1, 2) {
@@ -615,8 +643,19 @@ func runC09(h *Harness) {
 		h.Violation("C09.setup", "load-failed", "fault-free load failed: %v", hs.Err)
 		return
 	}
+	// two more, healthy CRLs of another issuer are loaded as well: a failing store must not be out-voted by them.
+	// Their URLs vary with the run so that the failing entry sits at every position of the repository's iteration.
+	for j := 0; j < 2; j++ {
+		ol := w.NewLocation(LocOpts{Name: fmt.Sprintf("H%d", j), URL: fmt.Sprintf("http://healthy%d.sim/%d/%d.crl", j, idx%7, idx%5), Issuer: w.B, NVers: 1, Extra: 1, Width: 9 + j, Base: uint32(4 + j)})
+		if x := h.Handshake(n, "load-healthy", w.ChainFor(ol.Cert(ol.Never[0]), w.B)); x.Err != nil {
+			h.Violation("C09.setup", "load-failed", "fault-free load of a second CRL failed: %v", x.Err)
+			return
+		}
+	}
+	h.Quiesce()
 	repo := n.Repo()
-	entryStore := func() crlstore.CRLStore { return repoStore(repo) }
+	victimID := calcCDPIdentifier(loc.URL)
+	entryStore := func() crlstore.CRLStore { return repoStoreOf(repo, victimID) }
 	lookup := func() (bool, error, any) {
 		var rv bool
 		var lerr error
